@@ -15,7 +15,7 @@ from ..gen.vcfgen import CallSet, Record, gt
 LEVEL = "exploration"
 NEEDS = ["cli", "shim"]
 RULE = ("call sets (1-40 samples, 0-300 records; a fifth of them with a ploidy error somewhere, so that failing runs are compared too) x "
-        "configurations drawn from container {vcf, vcf.gz, bcf, raw bcf} x transport {path (file names with conventional, unconventional and misleading extensions), stdin} x --threads {1,2,3,4,8,16} x BGZF layout {single, "
+        "configurations drawn from container {vcf, vcf.gz, bcf, raw bcf} x transport {named pipe given as a path, /dev/stdin, path (file names with conventional, unconventional and misleading extensions), stdin} x --threads {1,2,3,4,8,16} x BGZF layout {single, "
         "one record per block, random cuts, mid-record cuts, stored blocks, empty blocks incl. a leading one, doubled EOF, 7-byte blocks, a 1-2 byte first block, non-default MTIME/XFL/OS header bytes} x sample map; plus "
         "repetitions of one configuration, stdin fed through a pipe with a tiny first write, environment changes (LANG, LC_ALL, TZ, HOME unset, cwd, RUST_LOG, NO_COLOR), `taskset -c 0` with 16 "
         "threads and per-read() delays. Verdict: all runs of a call set have the same (exit status, stdout bytes). Non-trivial: a call set with "
@@ -38,7 +38,7 @@ def plan(tier, seed):
 
 
 def gen_callset(rng):
-    cs = G.random_callset(rng, nsamples=rng.choice([1, 2, 3, 5, 8, 20, 40]), nrecords=rng.choice([0, 1, 2, 5, 20, 80, 300]),
+    cs = G.random_callset(rng, nsamples=rng.choice([1, 2, 3, 5, 8, 20, 40]), nrecords=rng.choice([0, 1, 2, 5, 20, 80, 300, 1500]),
                           p_missing=rng.choice([0, 0.05, 0.3]), p_multi=rng.choice([0, 0.05]))
     if cs.records and rng.random() < 0.2:
         i = rng.randrange(len(cs.records))
@@ -75,6 +75,30 @@ def one_run(data, smap, project, via, threads, env=None, taskset=False, delay=No
     if project is not None:
         a += ["--project-shape", ",".join(str(m + 1) for m in project), "--precision", "17"]
     a += ["-t", str(threads)]
+    if via == "dev-stdin":
+        return cli.sfs(a + ["/dev/stdin"], stdin=data, env=args_env, exe=exe, timeout=120)
+    if via == "fifo":
+        import threading
+        fifo = E.tmpfile(b"", ".fifo")
+        os.unlink(fifo)
+        os.mkfifo(fifo)
+
+        def feed():
+            try:
+                with open(fifo, "wb") as f:
+                    f.write(data)
+            except OSError:
+                pass
+        th = threading.Thread(target=feed, daemon=True)
+        th.start()
+        r = cli.sfs(a + [fifo], env=args_env, exe=exe, timeout=120)
+        if th.is_alive():
+            try:
+                os.close(os.open(fifo, os.O_RDONLY | os.O_NONBLOCK))
+            except OSError:
+                pass
+        th.join(timeout=10)
+        return r
     if via.startswith("path"):
         # the file NAME is not part of the call data either: conventional, unconventional and misleading extensions
         return cli.sfs(a + [E.tmpfile(data, via[4:])], env=args_env, exe=exe, timeout=120)
@@ -134,7 +158,7 @@ def shard(S, p):
         record("vcf/stdin/t1", one_run(vcf, smap, project, "stdin", 1), vcf)
         configs = []
         for container in ("vcf", "vcf.gz", "bcf", "rawbcf"):
-            for via in ("path", "stdin"):
+            for via in ("path", "stdin", "fifo", "dev-stdin"):
                 configs.append((container, via, rng.choice(THREADS), rng.choice(LAYOUTS)))
         while len(configs) < p["configs"]:
             configs.append((rng.choice(["vcf.gz", "bcf", "vcf.gz", "bcf", "vcf", "rawbcf"]), rng.choice(["path", "stdin"]), rng.choice(THREADS), rng.choice(LAYOUTS)))
